@@ -27,7 +27,7 @@ def time_forms(t, full=True):
     out = []
     for prec, ext in (('h', True), ('m', True), ('m', False), ('s', True), ('s', False)):
         out.append(iso_ref.render_time(t, prec, ext))
-    nds = (1, 2, 3, 6, 7, 9) if full else (6,)
+    nds = (1, 2, 3, 6, 7, 9, 10, 15) if full else (6,)      # 'any number of fraction digits'
     for nd in nds:
         for mark in ('.', ','):
             for ext in (True, False):
@@ -235,7 +235,7 @@ def run(ctx):
     ctx.explore('tz-entry', offs, 'eval_tz_entry', serial=True)
     ctx.coverage_extra.update({
         'bounds': {'years': YEARS, 'days': DAYS, 'times': [str(t) for t in TIMES], 'date_styles': iso_ref.DATE_ONLY_STYLES,
-                   'offsets': OFFSETS, 'fraction_digits': [1, 2, 3, 6, 7, 9]},
+                   'offsets': OFFSETS, 'fraction_digits': [1, 2, 3, 6, 7, 9, 10, 15]},
         'rule': 'one case per (date, date style); each parses every time form x offset form (A), separators (B), input types (C), '
                 '24:00 forms; transitions = strings parsed',
     })
